@@ -16,7 +16,7 @@ EXTENDS Integers, Sequences, FiniteSets, TLC, CSV, Json, IOUtils
 
 CONSTANTS NRegs, Depth, NValues
 Out == IOEnv.OUT
-Ops == {"add", "sub", "mul", "div"}
+Ops == {"add", "sub", "mul", "div", "mod"}
 VARIABLES hist, loaded
 Init == hist = <<>> /\ loaded = {}
 \* value numbers offered at the current step: a window of four that moves with the step number and the program so far,
